@@ -388,7 +388,14 @@ def r17_3(ctx):
 
     from .common import expand_locals
 
+    _leaf_memo: Dict[int, Tuple[str, bool]] = {}
+
     def leaf(node):
+        if id(node) not in _leaf_memo:
+            _leaf_memo[id(node)] = _leaf(node)
+        return _leaf_memo[id(node)]
+
+    def _leaf(node):
         # explaining variables are read through (`is_hex = sym.orig_type == HEX`, `entered = int(text, base)`)
         if any(isinstance(x, ast.Name) and x.id not in texts and x.id not in ("sym", "base", prm) for x in ast.walk(node)):
             try:
@@ -952,5 +959,63 @@ def r17_16(ctx):
         raise AnalysisError(f"only {n} uses of the highlighted row in application handlers")
 
 
+def r17_17(ctx):
+    """R17.17 typed text cannot make the session raise: (a) search_nodes() compiles the jump-to text as a regular expression inside a
+    handler that covers what re.compile raises for it - re.error, but also OverflowError (`a{99999999999}`) and RecursionError
+    (thousands of nested groups) (fixed defect 5.62); (b) after a load the displayed list is rebuilt whether or not the load
+    succeeded - a file that fails half-way has applied its first lines, and a row they hide must not stay highlighted
+    (fixed defect 5.63)."""
+    repo = ctx.repo
+    f = repo.func(f"{MODEL}:MenuConfigState.search_nodes")
+    ctx.analysed(f.qual)
+    comps = [n for n in ast.walk(f.node) if isinstance(n, ast.Call) and ast.unparse(n.func) in ("re.compile", "re.search", "re.match", "re.fullmatch", "re.findall")]
+    if not comps:
+        raise AnchorError("search_nodes: no regular expression is compiled")
+    need = ("re.error", "OverflowError", "RecursionError")
+    for c in comps:
+        construct = f"MenuConfigState.search_nodes/`{ast.unparse(c)[:40]}` cannot raise out of the search"
+        covered: Set[str] = set()
+        p = repo.parent(c)
+        child = c
+        while p is not None and p is not f.node:
+            if isinstance(p, ast.Try) and any(child is x or any(child is y for y in ast.walk(x)) for x in p.body):
+                for h in p.handlers:
+                    t = "" if h.type is None else ast.unparse(h.type)
+                    if h.type is None or any(w in t for w in ("Exception", "BaseException")):
+                        covered |= set(need)
+                    covered |= {w for w in need if w in t}
+                    if "ArithmeticError" in t:
+                        covered.add("OverflowError")
+                    if "RuntimeError" in t:
+                        covered.add("RecursionError")
+            child = p
+            p = repo.parent(p)
+        missing = [w for w in need if w not in covered]
+        (ctx.bad(construct, f"{missing} is not caught: text typed into the jump-to dialog ends the session", f.loc(c)) if missing else ctx.ok(construct, f.loc(c)))
+    g = repo.func(f"{APP}:MenuConfigApp._handle_load_result")
+    ctx.analysed(g.qual)
+    fl = Flow(g.node, resolver=Resolver(g.node)).run()
+    upd = [n for n in ast.walk(g.node) if isinstance(n, ast.Call) and ast.unparse(n.func) in ("self.state._update_menu",)]
+    loads = [n for n in ast.walk(g.node) if isinstance(n, ast.Call) and ast.unparse(n.func) == "self.state.try_load"]
+    if not upd or not loads:
+        raise AnchorError("_handle_load_result: try_load / _update_menu not found")
+    res_names = set()
+    st = repo.enclosing_stmt(loads[0])
+    if isinstance(st, ast.Assign):
+        res_names = {x.id for t in st.targets for x in ast.walk(t) if isinstance(x, ast.Name)}
+    construct = "MenuConfigApp._handle_load_result/the list is rebuilt whatever try_load() answered"
+    dep = sorted((k, p) for k, p in (fl.guards_at(upd[0]) or set()) if {x.id for x in ast.walk(_pk17(k)) if isinstance(x, ast.Name)} & res_names)
+    (ctx.bad(construct, f"rebuilt only under {dep}: a load that fails after it applied some lines leaves rows displayed that those lines hide - ValueError on the next reset", g.loc(upd[0]))
+     if dep else ctx.ok(construct, g.loc(upd[0])))
+
+
+def _pk17(k: str) -> ast.AST:
+    from .common import parse_key
+    try:
+        return parse_key(k)
+    except Exception:
+        return ast.Constant(None)
+
+
 def rules():
-    return [("R17.16", r17_16, 6), ("R17.15", r17_15, 2), ("R17.14", r17_14, 1), ("R17.13", r17_13, 1), ("R17.12", r17_12, 1), ("R17.11", r17_11, 2), ("R17.10", r17_10, 3), ("R17.9", r17_9, 2), ("R17.8", r17_8, 6), ("R17.7", r17_7, 5), ("R17.1", r17_1, 6), ("R17.5", r17_5, 4), ("R17.2", r17_2, 13), ("R17.3", r17_3, 4), ("R17.4", r17_4, 6), ("R17.6", r17_6, 3)]
+    return [("R17.17", r17_17, 2), ("R17.16", r17_16, 6), ("R17.15", r17_15, 2), ("R17.14", r17_14, 1), ("R17.13", r17_13, 1), ("R17.12", r17_12, 1), ("R17.11", r17_11, 2), ("R17.10", r17_10, 3), ("R17.9", r17_9, 2), ("R17.8", r17_8, 6), ("R17.7", r17_7, 5), ("R17.1", r17_1, 6), ("R17.5", r17_5, 4), ("R17.2", r17_2, 13), ("R17.3", r17_3, 4), ("R17.4", r17_4, 6), ("R17.6", r17_6, 3)]
